@@ -171,6 +171,26 @@ def whyLeaf (r : Text.WDef) : Option String :=
             (if emitHeaderPort (Text.envOf r) nm p.pins = some none then none else some "port-alias")
           else some "port-not-wired-to-the-whole-net-of-its-name")
 
+/-- as `whyLeaf`, but a port without direction is accepted (`astLeafU`) -/
+def whyLeafU (r : Text.WDef) : Option String :=
+  if r.lib != "hdi_primitives" then some "not-a-primitive"
+  else if !(r.attrs.getD []).isEmpty then some "attributes"
+  else if r.params.isSome then some "parameters"
+  else r.ports.findSome? (fun p =>
+    match p.name with
+    | none => some "port-unnamed"
+    | some nm =>
+      if p.width == 0 then some "port-of-width-0"
+      else if !(p.attrs.getD []).isEmpty then some "port-attributes"
+      else if p.pins.all (fun b => b.isNone) then none
+      else match r.cables.find? (fun c => c.name == nm) with
+        | none => some "inner-pins-wired-but-no-net-of-the-port's-name"
+        | some c =>
+          if decide (p.lower = c.lower) && decide (p.width = c.width) &&
+              decide (p.pins = (cableBits nm c.lower c.width).items.map some) then
+            (if emitHeaderPort (Text.envOf r) nm p.pins = some none then none else some "port-alias")
+          else some "port-not-wired-to-the-whole-net-of-its-name")
+
 /-- `c04_text_bb`: (inside?, explanation) -/
 def reportBB (n : Text.WNet) : Bool × String :=
   match topOf n with
@@ -243,6 +263,50 @@ def reportHier (n : Text.WNet) : Bool × String :=
 def laterDefsA (n : Text.WNet) : List Text.WDef :=
   (leafDefs n ((composeOrder n).drop 1)).filter (fun r => r.lib != "SDN_VERILOG_ASSIGNMENT")
 
+/-- which stage of the pure reader refuses a late work module (explanation only) -/
+def whyLateWA (L : Def) (ls : List Def) (n : Nat) (m : WModA) (topName : String) : String :=
+  if L.lib.isSome then "module-declared-twice-or-already-known"
+  else if !L.insts.isEmpty then "stub-with-instances"
+  else if L.ports.map (·.name) != (m.base.ports.map (·.name)).map some then "ports-of-the-first-instance-are-not-the-declared-ports(order-or-subset)"
+  else if !decide ((m.base.ports.map (·.name)).Nodup) then "port-names-not-distinct"
+  else if !m.base.insts.all (fun i => i.mod != topName) then "instantiates-the-top"
+  else if !L.params.isEmpty then "stub-with-parameters"
+  else match foldLocal hdrStepL (entryDef L m.params) n (m.base.ports.map (·.name)) with
+    | none => "header(a-port-of-the-stub-already-wired-or-empty)"
+    | some r1 => match foldDeclA r1.1 r1.2 m.base.ports with
+      | none => "port-declaration(range-narrower-than-the-first-instance's-row,…)"
+      | some r2 => match foldLocal wireStep r2.1 r2.2.1 m.base.wires with
+        | none => "net-declaration"
+        | some r3 =>
+          if !decide ((r3.1.cables.map (·.name)).Nodup) then "net-names-not-distinct"
+          else match foldAsg r3.1 0 (ls.map (fun x => padOpsD x m.base.name r2.2.2)) m.asgs with
+            | none => "assign(atom-not-evaluable,assignment-definition-of-another-shape,name-taken)"
+            | some ra => match foldInst ra.1 ra.2.2 m.base.insts with
+              | none => "instance(row-wider-than-the-port-known-so-far,port-unknown-to-a-declared-module,name-taken,…)"
+              | some _ => "accepted"
+
+def whyFoldLateA : List Def → Nat → String → List WAnyA → String
+  | _, _, _, [] => "accepted"
+  | tbl, n, t, M :: Ms =>
+    match lateStepA tbl n t M with
+    | some r => whyFoldLateA r.1 r.2 t Ms
+    | none =>
+      match tbl.find? (fun d => d.name == M.name) with
+      | none => "late:module-never-instantiated-before-its-declaration"
+      | some L =>
+        match M with
+        | .work m => "late-work:" ++ whyLateWA L (tbl.filter (fun x => x.name != m.base.name)) n m t
+        | .leaf lf =>
+          if L.lib.isSome then "late-leaf:declared-twice"
+          else if L.ports.map (·.name) != (lf.ports.map (·.name)).map some then
+            "late-leaf:ports-of-the-first-instance-are-not-the-declared-ports(order-or-subset)"
+          else "late-leaf:header-or-port-declaration(range-narrower-than-the-first-instance's-row,…)"
+
+def whyBuildHierA (m : WModA) (Ms : List WAnyA) : String :=
+  match buildTopA m with
+  | none => "top(declaration-phases,assign,instance-row-wider-than-the-port-known-so-far,self-instantiation,…)"
+  | some r => whyFoldLateA (r.1 :: r.2.1) r.2.2 m.base.name Ms
+
 /-- `c04_ast_hierA` (hierarchical netlists WITH ASSIGNS, up to the syntax trees): (inside?, explanation) -/
 def reportHierA (n : Text.WNet) : Bool × String :=
   match topOf n with
@@ -254,7 +318,7 @@ def reportHierA (n : Text.WNet) : Bool × String :=
     let works := T :: Rs.filter (fun r => !isPrim r)
     let why : Option String :=
       if works.any (fun r => (astParams r).isNone) then some "module-parameter-without-value"
-      else orElseS ((Rs.filter isPrim).findSome? (fun r => (whyLeaf r).map (fun s => "leaf:" ++ s))) fun _ =>
+      else orElseS ((Rs.filter isPrim).findSome? (fun r => (whyLeafU r).map (fun s => "leaf:" ++ s))) fun _ =>
         orElseS (works.findSome? (fun W => orElseS ((W.ports.findSome? (whyAstPort W)).map (fun s => "astOf:" ++ s)) fun _ =>
           orElseS (((ordI n W).findSome? (whyAstInst n W)).map (fun s => "astOf:" ++ s)) fun _ =>
           orElseS ((whyFragTop n W).map (fun s => "fragTop:" ++ s)) fun _ =>
@@ -265,8 +329,7 @@ def reportHierA (n : Text.WNet) : Bool × String :=
         if !decide ((T.name :: Rs.map (·.name)).Nodup) then some "module-names-not-distinct"
         else match astOfA n T, Rs.mapM (astAnyA n) with
           | some m, some Ms =>
-            if (buildHierA m.toA Ms).isNone then
-              some "buildHierA:the-pure-reader-refuses(a-module-not-instantiated-before-its-declaration,row-wider-than-the-first-instance's,…)"
+            if (buildHierA m.toA Ms).isNone then some ("buildHierA:" ++ whyBuildHierA m.toA Ms)
             else none
           | _, _ => some "astOf"
     (false, "out:" ++ why.getD "unexplained")
